@@ -50,12 +50,12 @@ RetDelete == /\ Ev.e = "ret_delete" /\ pc.op = "delete" /\ Proj(t)
              /\ pc' = Idle /\ t' = t
 RetProcess == /\ Ev.e = "ret_process" /\ pc.op = "process" /\ pc.cur = -1 /\ pc.chain = <<>> /\ t.elapsed = <<>> /\ Proj(t)
               /\ pc' = Idle /\ t' = t
-Tick == /\ Ev.e = "service"
+TTick == /\ Ev.e = "service"
         /\ LET r == Service(t) IN t' = r.st /\ Ev.ret = r.ret /\ Proj(r.st)
         /\ pc' = pc
 TNext == l <= Len(TraceLog) /\ l' = l + 1 /\
          (Call("create") \/ Call("delete") \/ Call("process") \/ CsCreate \/ CsDelete \/ ProcPop \/ ProcAct \/ ProcCb
-          \/ RetCreate \/ RetDelete \/ RetProcess \/ Tick)
+          \/ RetCreate \/ RetDelete \/ RetProcess \/ TTick)
 TSpec == TInit /\ [][TNext]_<<t, pc, l>>
 Accepted == TLCGet("stats").diameter - 1 = Len(TraceLog)
 \* pool conservation incl. the chain held by a running COTmrProcess (C08), checked at every recorded event
